@@ -133,9 +133,14 @@ func c16File(cfg c16FileCfg, base int) []byte {
 	return buf.Bytes()
 }
 
-var c16Takes = []string{"Read[T]", "GenericReader.Read(retained)", "Rows.ReadRows", "Rows.ReadRows+Clone", "Reader.ReadRows(async)+Clone", "Pages.ReadPage.Values+Clone", "Write:GenericWriter", "Write:WriteRows", "Write:RowBuffer.WriteRows", "Write:SortingWriter.WriteRows", "Write:GenericBuffer+sort", "Write:FilterRowWriter"}
+var c16Takes = []string{"Read[T]", "GenericReader.Read(retained)", "Rows.ReadRows", "Rows.ReadRows+Clone", "Reader.ReadRows(async)+Clone", "Pages.ReadPage.Values+Clone", "Write:GenericWriter", "Write:WriteRows", "Write:RowBuffer.WriteRows", "Write:SortingWriter.WriteRows", "Write:GenericBuffer+sort", "Write:FilterRowWriter",
+	// rows read after a seek that lands strictly inside a page (the page is sliced)
+	"GenericReader.Read(retained, after SeekToRow(1))", "GenericReader.Read(retained, after SeekToRow(2))", "GenericReader.Read(retained, after SeekToRow(4))",
+	"Rows.ReadRows+Clone(after SeekToRow(2))", "Rows.ReadRows(5 rows after SeekToRow(2))",
+	// rows read from an in-memory row group, which is then reset and refilled
+	"GenericRowGroupReader(GenericBuffer).Read(retained)", "GenericRowGroupReader(RowBuffer).Read(retained)"}
 
-var c16Disturbs = []string{"read-more", "seek0", "reset", "close", "read-other-file", "write-other-file", "gc"}
+var c16Disturbs = []string{"read-more", "seek0", "reset", "close", "read-other-file", "write-other-file", "gc", "source-reset+refill"}
 
 func c16Run(x *engine.X) {
 	root := x.Choose(len(c16Takes)*len(c16FileCfgs), "take*file")
@@ -166,6 +171,8 @@ func c16Run(x *engine.X) {
 		rowBuf  []parquet.Row
 		check   func() (bool, string) // compares the held values with the snapshot
 		sameRdr func(op string) bool  // true if op is a call on the reader the rows came from
+		// resets and refills the in-memory row group the rows were read from
+		sourceReset func()
 	)
 	sameRdr = func(string) bool { return false }
 	defer func() {
@@ -207,6 +214,32 @@ func c16Run(x *engine.X) {
 			return true, ""
 		}
 	}
+	// what the file holds: rows handed over must also be RIGHT at hand-over (with
+	// poison on release a buffer freed too early is already overwritten by then)
+	fileRows := c16Rows(0, 9)
+	expectGo := func(from int, got []ARow) bool {
+		for i := range got {
+			if from+i >= len(fileRows) || canonRows(got[i : i+1])[0] != canonRows(fileRows[from+i : from+i+1])[0] {
+				x.Failf("wrong-at-handover", shape, "row %d handed over by %s is not the row written:\n  got:  %s\n  want: %s", from+i, take, trunc2(canonRows(got[i : i+1])[0]), trunc2(canonRows(fileRows[min(from+i, len(fileRows)-1) : min(from+i, len(fileRows)-1)+1])[0]))
+				return false
+			}
+		}
+		return true
+	}
+	expectRows := func(from int, got []parquet.Row) bool {
+		// compared as Go values: the order of map entries in a row is not fixed
+		schema := parquet.SchemaOf(ARow{})
+		var rec []ARow
+		for i := range got {
+			var r ARow
+			if err := schema.Reconstruct(&r, got[i]); err != nil {
+				x.Failf("wrong-at-handover", shape, "row %d handed over by %s cannot be reconstructed: %v", from+i, take, err)
+				return false
+			}
+			rec = append(rec, r)
+		}
+		return expectGo(from, rec)
+	}
 	isWrite := strings.HasPrefix(take, "Write:")
 	var contDone func() // write side: run the remaining continuation at the end
 
@@ -229,16 +262,76 @@ func c16Run(x *engine.X) {
 		}
 		kept := append([]ARow(nil), batch[:n]...) // shallow copies, as a caller would keep them
 		check = cmp("retained row", canonRows(kept), func() []string { return canonRows(kept) })
-	case "Rows.ReadRows", "Rows.ReadRows+Clone":
+	case "GenericReader.Read(retained, after SeekToRow(1))", "GenericReader.Read(retained, after SeekToRow(2))", "GenericReader.Read(retained, after SeekToRow(4))":
+		var k int64
+		fmt.Sscanf(take[strings.Index(take, "SeekToRow(")+len("SeekToRow("):], "%d", &k)
+		gr = parquet.NewGenericReader[ARow](open(false))
+		first := make([]ARow, 1)
+		gr.Read(first) // a page has been returned before the seek
+		if err := gr.SeekToRow(k); err != nil {
+			x.Failf("harness", "seek", "%v", err)
+			return
+		}
+		batch = make([]ARow, 3)
+		n, err := gr.Read(batch)
+		if err != nil && err != io.EOF {
+			x.Failf("harness", "read", "%v", err)
+			return
+		}
+		kept := append([]ARow(nil), batch[:n]...)
+		if !expectGo(int(k), kept) {
+			return
+		}
+		check = cmp("retained row", canonRows(kept), func() []string { return canonRows(kept) })
+	case "GenericRowGroupReader(GenericBuffer).Read(retained)", "GenericRowGroupReader(RowBuffer).Read(retained)":
+		src := c16Rows(0, 9)
+		var rg parquet.RowGroup
+		if strings.Contains(take, "RowBuffer") {
+			b := parquet.NewRowBuffer[ARow]()
+			b.Write(src)
+			rg = b
+			sourceReset = func() { b.Reset(); b.Write(c16Rows(300, 9)) }
+		} else {
+			b := parquet.NewGenericBuffer[ARow]()
+			b.Write(src)
+			rg = b
+			sourceReset = func() { b.Reset(); b.Write(c16Rows(300, 9)) }
+		}
+		rr := parquet.NewGenericRowGroupReader[ARow](rg)
+		batch = make([]ARow, 4)
+		n, err := rr.Read(batch)
+		if err != nil && err != io.EOF {
+			x.Failf("harness", "read", "%v", err)
+			return
+		}
+		gr = rr
+		kept := append([]ARow(nil), batch[:n]...)
+		check = cmp("retained row", canonRows(kept), func() []string { return canonRows(kept) })
+	case "Rows.ReadRows", "Rows.ReadRows+Clone", "Rows.ReadRows+Clone(after SeekToRow(2))", "Rows.ReadRows(5 rows after SeekToRow(2))":
 		rows = open(false).RowGroups()[0].Rows()
 		rowBuf = make([]parquet.Row, 3)
+		if strings.Contains(take, "5 rows") {
+			rowBuf = make([]parquet.Row, 5)
+		}
+		if strings.Contains(take, "SeekToRow") {
+			rows.ReadRows(rowBuf[:1])
+			if err := rows.SeekToRow(2); err != nil {
+				x.Failf("harness", "seek", "%v", err)
+				return
+			}
+		}
 		n, err := rows.ReadRows(rowBuf)
 		if err != nil && err != io.EOF {
 			x.Failf("harness", "read", "%v", err)
 			return
 		}
 		held := rowBuf[:n]
-		if strings.HasSuffix(take, "+Clone") {
+		if strings.Contains(take, "SeekToRow") && cfg.desc != "plain,v2,2rg" {
+			if !expectRows(2, held) {
+				return
+			}
+		}
+		if strings.Contains(take, "+Clone") {
 			held = make([]parquet.Row, n)
 			for i := range held {
 				held[i] = rowBuf[i].Clone()
@@ -418,6 +511,10 @@ func c16Run(x *engine.X) {
 			w.Close()
 		case "gc":
 			runtime.GC()
+		case "source-reset+refill":
+			if sourceReset != nil {
+				sourceReset()
+			}
 		}
 		if !stale && !verify("after "+op) {
 			return
